@@ -465,6 +465,15 @@ func intrMutexUnlock(fr *frame, a []value) value {
 		panic(targetPanic{v: iface{fr.i.runtimeErrorString, "sync: unlock of unlocked mutex"}, runtime: true, site: callerName(fr.caller), stack: fr.caller.stack()})
 	}
 	*s = int32(0)
+	// bounded context switch: a harness may name a function that runs "what another goroutine
+	// blocked on this mutex does as soon as it is released" (stub key "hook:unlock"). Not re-entrant.
+	if act, ok := fr.i.cfg.Stubs["hook:unlock"]; ok && fr.i.inHook == 0 && fr.i.inInit == 0 {
+		if fa := fr.i.parseAction(nil, act); fa != nil && fa.replace != nil {
+			fr.i.inHook++
+			defer func() { fr.i.inHook-- }()
+			call(fr.i, fr.caller, token.NoPos, fa.replace, []value{a[0]})
+		}
+	}
 	return nil
 }
 
